@@ -171,8 +171,8 @@ func randomFlags(rng *rand.Rand, j *kj.Journal, o flagOpts) *kj.Flags {
 			if r.Level == 0 && o.NoHide {
 				r.Level = 1 + rng.Intn(2)
 			}
-			if r.Level == 0 {
-				r.Suffix = 0
+			if r.Level == 0 && rng.Intn(2) == 0 {
+				r.Suffix = 0 // (otherwise `-m 0:2,rx`: level 0 hides, whatever the suffix)
 			}
 			f.Map = append(f.Map, r)
 		}
